@@ -578,6 +578,10 @@ func (a *Options) Equal(b *Options) bool {
 	if a.jsx.Parse != b.jsx.Parse || !jsxExprsEqual(a.jsx.Factory, b.jsx.Factory) || !jsxExprsEqual(a.jsx.Fragment, b.jsx.Fragment) {
 		return false
 	}
+	if a.jsx.Preserve != b.jsx.Preserve || a.jsx.AutomaticRuntime != b.jsx.AutomaticRuntime || a.jsx.ImportSource != b.jsx.ImportSource ||
+		a.jsx.Development != b.jsx.Development || a.jsx.SideEffects != b.jsx.SideEffects {
+		return false
+	}
 
 	// Do a cheap assert that the defines object hasn't changed
 	if (a.defines != nil || b.defines != nil) && (a.defines == nil || b.defines == nil ||
